@@ -567,6 +567,17 @@ func TestC34_RaceWorkload(t *testing.T) {
 			os.Exit(3)
 		}
 		close(net.stop)
+		// a lock-discipline report fails the case it occurred in (the workload is its reproduction)
+		verifLockMu.Lock()
+		var hazards []string
+		for k := range verifLockReports {
+			hazards = append(hazards, k)
+		}
+		verifLockMu.Unlock()
+		if len(hazards) > 0 {
+			sort.Strings(hazards)
+			rt.Fatalf("deadlock hazard - a goroutine re-acquires a reader/writer lock it already holds (blocks for ever once a writer queues in between): %s\n%s\n%s", strings.Join(hazards, "; "), verifLockReports[hazards[0]], desc)
+		}
 		net.wg.Wait()
 		perNode := map[int]map[string]bool{}
 		for _, ops := range work {
